@@ -757,7 +757,9 @@ int reb_check_exit(struct reb_simulation* const r, const double tmax, double* la
     }
 #ifndef MPI
     if (!r->N){
-        if (!r->N_odes){
+        // The BS integrator keeps its own N-body equations in the list of ODEs. Only user-defined ODEs can be integrated without particles.
+        const int N_odes_user = r->N_odes - (r->ri_bs.nbody_ode ? 1 : 0);
+        if (N_odes_user<=0){
             reb_simulation_warning(r,"No particles found. Will exit.");
             r->status = REB_STATUS_NO_PARTICLES; // Exit now.
         }else{
